@@ -528,6 +528,58 @@ func runC07(c *Ctx) {
 			}
 			gate = any && okRet
 		}
+		if !gate {
+			// the comparison with nil is kept in a bool (`ok = err == nil`) that is branched on later: on the error path
+			// the bool has the comparison's value, so the edge taken for that value must lead to nil results only
+			allInstrs(f, func(_ *ssa.BasicBlock, _ int, in ssa.Instruction) {
+				bo, ok := in.(*ssa.BinOp)
+				if !ok || bo.X != ssa.Value(errVal) || !isNilConst(bo.Y) || (bo.Op != token.EQL && bo.Op != token.NEQ) || bo.Referrers() == nil {
+					return
+				}
+				onErr := bo.Op == token.NEQ // the value of the comparison when there is an error
+				for _, r := range *bo.Referrers() {
+					phi, ok := r.(*ssa.Phi)
+					if !ok || phi.Referrers() == nil {
+						continue
+					}
+					for _, r2 := range *phi.Referrers() {
+						var iff *ssa.If
+						val := onErr
+						switch x := r2.(type) {
+						case *ssa.If:
+							iff = x
+						case *ssa.UnOp:
+							if x.Op == token.NOT && x.Referrers() != nil {
+								for _, r3 := range *x.Referrers() {
+									if i3, ok := r3.(*ssa.If); ok {
+										iff, val = i3, !onErr
+									}
+								}
+							}
+						}
+						if iff == nil {
+							continue
+						}
+						edge := 1
+						if val {
+							edge = 0
+						}
+						okRet, any := true, false
+						for blk := range edgeRegion(f, iff.Block(), edge) {
+							if r, ok := blk.Instrs[len(blk.Instrs)-1].(*ssa.Return); ok {
+								any = true
+								if !isNilConst(r.Results[0]) {
+									okRet = false
+								}
+							}
+						}
+						if any && okRet {
+							gate = true
+						}
+					}
+				}
+			})
+		}
 		c.check(gate, key, errVal.Pos(), "err != nil leads to a nil result (with an error, R11.2)", "the strconv error does not lead to a nil result")
 	}
 
